@@ -51,15 +51,65 @@ def events_mgr(config, name='wf'):
     return mgr
 
 
+class DaoStub(Stub):
+    """In-memory stand-in for the private DAO's *queries* used by TaskPool.
+
+    prev_instances[(name, point)] = [(submit_num, flow_wait, flow_nums, status)]
+    task_outputs[(name, point)] = {outputs_json: flow_nums}
+    task_prereqs[(point, name, flow_nums_str)] = rows
+    The SQL itself is trusted (not modelled).
+    """
+
+    def __init__(self):
+        super().__init__('pri_dao')
+        self.__dict__.update(prev_instances={}, task_outputs={},
+                             task_prereqs={}, tasks_to_hold=[],
+                             latest_flow_nums=None)
+
+    def select_prev_instances(self, name, point):
+        return list(self.prev_instances.get((name, str(point)), []))
+
+    def select_task_outputs(self, name, point):
+        return dict(self.task_outputs.get((name, str(point)), {}))
+
+    def select_task_prerequisites(self, cycle, name, flow_nums):
+        return list(self.task_prereqs.get((str(cycle), name, flow_nums), []))
+
+    def select_tasks_to_hold(self):
+        return list(self.tasks_to_hold)
+
+    def select_latest_flow_nums(self):
+        return self.latest_flow_nums
+
+
+def xtrigger_mgr(name='wf', db=None, ds=None, proc_pool=None):
+    """Real XtriggerManager on a scheduler stand-in with stub collaborators."""
+    from types import SimpleNamespace
+    from cylc.flow.xtrigger_mgr import XtriggerManager
+    schd = SimpleNamespace(
+        workflow=name, owner='u',
+        proc_pool=proc_pool or Stub('proc_pool'),
+        workflow_db_mgr=db or Stub('workflow_db_mgr'),
+        broadcast_mgr=Stub('broadcast_mgr'),
+        data_store_mgr=ds or Stub('data_store_mgr'),
+    )
+    return XtriggerManager(schd, '/nonexistent/run', '/nonexistent/share')
+
+
 def pool(config, name='wf', real_events=False):
     """Real TaskPool with stub DB / data store / xtrigger managers."""
     db = Stub('workflow_db_mgr')
-    db.__dict__['pri_dao'] = Stub('pri_dao')
+    db.__dict__['pri_dao'] = DaoStub()
     tem = events_mgr(config, name) if real_events else Stub('task_events_mgr')
-    xm = Stub('xtrigger_mgr')
+    ds = Stub('data_store_mgr')
+    ds.__dict__['xtrigger_tasks'] = {}
+    xm = xtrigger_mgr(name, db, ds)
     fm = FlowMgr(db)
-    p = TaskPool(tokens(name), config, db, tem, xm, Stub('data_store_mgr'),
-                 fm)
+    p = TaskPool(tokens(name), config, db, tem, xm, ds, fm)
+    if real_events:
+        tem.xtrigger_mgr = xm
+        tem.data_store_mgr = ds
+        tem.workflow_db_mgr = db
     if real_events:
         tem.spawned = []
     return p
